@@ -3,7 +3,7 @@ import Operon.Model.Cffl
 /-!
   Line-protocol driver shared by C07 and C08 (`Drv/C07.lean`, `Drv/C08.lean` only call `main`).
 
-  cfg <gate> <breakerOn> <threshold> <timeoutUs> <cacheOn> <ttlUs>          -> "ok"
+  cfg <gate> <breakerOn> <threshold> <timeoutUs> <cacheOn> <ttlUs> [<budget> [stub|real]]   -> "ok"
   run <pid|u<pid>> <zVerdict|exc> <yVerdict|exc>                            -> result ; stats
   adv <us> | resetcb | clearcache                                           -> "- ; stats"
   Verdicts are the raw `action_type` strings (`x:<hex code points>` for strings that are not one token).
@@ -11,9 +11,45 @@ import Operon.Model.Cffl
 namespace Operon.Cffl.Drv
 open Operon Operon.Proto Operon.Cffl
 
+/-- The shared energy store as far as the agents of the harness use it (`ATP_Store.consume(cost=10)`, ATP only,
+    no debt): refused while STARVING, otherwise granted iff the balance covers the cost; after a grant the store is
+    STARVING iff balance / capacity ≤ 0.1. -/
+structure Store where
+  atp : Nat := 1000000000
+  cap : Nat := 1000000000
+  starving : Bool := false
+
+def Store.consume (st : Store) (cost : Nat) : Store × Bool :=
+  if st.starving then (st, false)
+  else if cost ≤ st.atp then
+    ({ st with atp := st.atp - cost, starving := decide ((st.atp - cost) * 10 ≤ st.cap) }, true)
+  else (st, false)
+
 structure DSt where
   cfg : Cfg := {}
   st : State := {}
+  store : Store := {}
+
+/-- The agents of the harness (stubs, and the built-in BioAgent on prompts its membrane lets through) first ask
+    the store for 10 ATP and answer FAILURE when refused; otherwise they give the scripted response.  The model
+    `run` takes the responses the agents ACTUALLY give; this function computes them: the executor is consulted
+    exactly when `run` consults it (which does not depend on the responses), the assessor exactly when the
+    executor did not raise. -/
+def runWithEnergy (d : DSt) (p : Prompt) (zr yr : Resp) : DSt × State × Out :=
+  let trial := run d.cfg idHashes d.st p zr yr
+  if trial.1.execCalls = d.st.execCalls then ({ d with st := trial.1 }, trial.1, trial.2)
+  else
+    let (store1, ok1) := d.store.consume d.cfg.cost
+    let zEff := if ok1 then zr else .ret .failure
+    match zEff with
+    | .exc =>
+      let r := run d.cfg idHashes d.st p zEff yr
+      ({ d with st := r.1, store := store1 }, r.1, r.2)
+    | .ret _ =>
+      let (store2, ok2) := store1.consume d.cfg.cost
+      let yEff := if ok2 then yr else .ret .failure
+      let r := run d.cfg idHashes d.st p zEff yEff
+      ({ d with st := r.1, store := store2 }, r.1, r.2)
 
 def gateOf : String → Gate
   | "and" => .and | "or" => .or | "majority" => .majority | "unanimous" => .unanimous
@@ -37,8 +73,8 @@ def showCState : CState → String
 def showAgent : Agent → String
   | .executor => "executor" | .assessor => "assessor"
 
-def showStats (s : State) : String :=
-  joinSp [toString s.execCalls, toString s.assessCalls, toString s.spent, showCState s.br.cstate,
+def showStats (s : State) (store : Store) : String :=
+  joinSp [toString s.execCalls, toString s.assessCalls, toString (store.cap - store.atp), showCState s.br.cstate,
     toString s.br.failures, toString s.br.successes, showOptNat s.br.lastFailure, showOptNat s.br.lastSuccess,
     toString s.br.trips, toString s.br.totalErrors, toString s.cache.length]
 
@@ -73,23 +109,30 @@ def tags (cfg : Cfg) (s s' : State) (o : Out) : String :=
     | none => []
   joinSp (t1 :: (t2 ++ t3 ++ t4 ++ t5 ++ t6))
 
+def mkCfg (g b thr tmo c ttl : String) : Cfg :=
+  { gate := gateOf g, breakerOn := boolOf b, threshold := intD thr, timeout := intD tmo,
+    cacheOn := boolOf c, ttl := intD ttl, cost := 10 }
+
 def step (d : DSt) (toks : List String) : DSt × String :=
   match toks with
-  | ["cfg", g, b, thr, tmo, c, ttl] =>
-    ({ cfg := { gate := gateOf g, breakerOn := boolOf b, threshold := intD thr, timeout := intD tmo,
-                cacheOn := boolOf c, ttl := intD ttl, cost := 10 }, st := {} }, "ok")
+  | ["cfg", g, b, thr, tmo, c, ttl] => ({ cfg := mkCfg g b thr tmo c ttl, st := {}, store := {} }, "ok")
+  | ["cfg", g, b, thr, tmo, c, ttl, bud] =>
+    ({ cfg := mkCfg g b thr tmo c ttl, st := {}, store := { atp := natD bud, cap := natD bud } }, "ok")
+  | ["cfg", g, b, thr, tmo, c, ttl, bud, _] =>
+    ({ cfg := mkCfg g b thr tmo c ttl, st := {}, store := { atp := natD bud, cap := natD bud } }, "ok")
   | ["run", p, z, y] =>
-    let (s', o) := run d.cfg idHashes d.st (promptOf p) (respOf z) (respOf y)
-    ({ d with st := s' }, showResult o.result ++ " ; " ++ showStats s' ++ " ## " ++ tags d.cfg d.st s' o)
+    let (d', s', o) := runWithEnergy d (promptOf p) (respOf z) (respOf y)
+    (d', showResult o.result ++ " ; " ++ showStats s' d'.store ++ " ## " ++ tags d.cfg d.st s' o
+      ++ (if d'.store.atp = d.store.atp ∧ s'.execCalls ≠ d.st.execCalls then " energy:refused" else ""))
   | ["adv", us] =>
     let (s', _) := Cffl.step d.cfg idHashes d.st (.adv (natD us))
-    ({ d with st := s' }, "- ; " ++ showStats s')
+    ({ d with st := s' }, "- ; " ++ showStats s' d.store)
   | ["resetcb"] =>
     let (s', _) := Cffl.step d.cfg idHashes d.st .resetcb
-    ({ d with st := s' }, "- ; " ++ showStats s' ++ (if d.st.br.cstate ≠ s'.br.cstate then s!" ## tr:{showCState d.st.br.cstate}>closed:reset" else ""))
+    ({ d with st := s' }, "- ; " ++ showStats s' d.store ++ (if d.st.br.cstate ≠ s'.br.cstate then s!" ## tr:{showCState d.st.br.cstate}>closed:reset" else ""))
   | ["clearcache"] =>
     let (s', _) := Cffl.step d.cfg idHashes d.st .clearcache
-    ({ d with st := s' }, "- ; " ++ showStats s')
+    ({ d with st := s' }, "- ; " ++ showStats s' d.store)
   | _ => (d, "bad-op")
 
 def main : IO Unit := runDriver ({} : DSt) step
